@@ -37,6 +37,11 @@ mod imp {
         "fn apply(f, v) { return f(v) }\nfn dbl(x) { return x * 2 }\nprintln(apply(dbl, 4))\nprintln(apply(fn(q) { return q - 1 }, 4))\n",
         "let arr = Array[1, 2, 3]\nlet mut s = 0\nfor i in 0..3 { s = s + arr[i] }\narr[1] = 9\nprintln(s + arr[1])\n",
         "let f = 1.5\nlet g = f * 2.0 + 0.25\nif g >= 3.0 { println(g) }\nlet b = true\nif b and g < 10.0 { println(\"ok\") }\n",
+        // call-site cache histories: a global closure with more constants than its caller, called through one site:
+        // CallGlobal (slow path, patches to Mono) / global store (cache flush) / miss / hit
+        "fn make_greeter() { let mut n = 0\n return fn() { n = n + 1\n let a = \"alpha\"\n let b = \"beta\"\n let c = \"gamma\"\n let d = \"delta\"\n let h = \"theta\"\n println(h)\n return n } }\nlet greet = make_greeter()\nlet mut flag = 0\nfn run() { greet() }\nrun()\nflag = 1\nrun()\nrun()\n",
+        "fn mk(k) { return fn(x) { let a = \"aa\"\n let b = \"bb\"\n let c = \"cc\"\n println(a + b + c)\n return x + k } }\nlet mut g = mk(1)\nlet mut t = 0\nfn run(v) { return g(v) }\nt = t + run(1)\nt = t + run(2)\ng = mk(2)\nt = t + run(3)\nt = t + run(4)\nprintln(t)\n",
+        "fn plain(x) { let s = \"p1\" + \"p2\"\n println(s)\n return x + 1 }\nfn mk() { let z = 5\n return fn(x) { let s = \"c1\" + \"c2\" + \"c3\"\n println(s)\n return x + z } }\nlet mut h = plain\nlet mut u = 0\nfn go(v) { return h(v) }\nu = go(1)\nu = go(2)\nh = mk()\nu = go(3)\nu = go(4)\nh = plain\nu = go(5)\nu = go(6)\nprintln(u)\n",
     ];
 
     #[derive(Clone, Debug)]
@@ -234,7 +239,7 @@ mod imp {
 
     pub fn mutate(base: &Function, rng: &mut Rng, gap: (u32, u32)) -> (String, Function) {
         let mut f = deep(base);
-        let kind = rng.below(16);
+        let kind = rng.below(18);
         let tag;
         match kind {
             0 => tag = "asis".to_string(),
@@ -403,6 +408,49 @@ mod imp {
                 }
                 f = g;
                 tag = "random".into();
+            }
+            16 | 17 => {
+                // nested function whose upvalue descriptors sit at / around the end of the enclosing frame's
+                // upvalue array (the verifier only counts descriptors): instantiated from a plain function
+                // frame (no upvalues, null upvalues_ptr) or from a closure frame with k upvalues
+                let plain = rng.chance(1, 2);
+                let k = if plain { 0 } else { 1 + rng.below(3) as usize };
+                let nd = 1 + rng.below(3) as usize;
+                let mut inner = Function::new(Some("inner".into()), 0);
+                inner.num_registers = 1;
+                let mut desc = String::new();
+                for _ in 0..nd {
+                    let cands = [0i64, k as i64 - 1, k as i64, k as i64 + 1, 255, rng.below(256) as i64];
+                    let index = (*rng.pick(&cands)).clamp(0, 255) as u8;
+                    let is_local = rng.chance(1, 3);
+                    desc.push_str(&format!("{}{}", if is_local { "L" } else { "P" }, index));
+                    inner.upvalue_descriptors.push(UpvalueDescriptor { is_local, index });
+                }
+                set_code(&mut inner, vec![ins(36, 0, 0, 0), ins(23, 0, 0, 0)]);
+                let mut holder = Function::new(Some("holder".into()), 0);
+                holder.num_registers = 8;
+                holder.constants.push(Value::nested_fn_marker(0));
+                holder.nested_functions.push(inner);
+                let mut hc = vec![ins(35, 0, 0, nd as u32)];
+                if rng.chance(1, 2) {
+                    hc.push(ins(21, 1, 0, 0));
+                }
+                hc.push(ins(23, 0, 0, 0));
+                set_code(&mut holder, hc);
+                if plain {
+                    f = holder;
+                } else {
+                    for j in 0..k {
+                        holder.upvalue_descriptors.push(UpvalueDescriptor { is_local: true, index: (2 + j) as u8 });
+                    }
+                    let mut main = Function::new(Some("main".into()), 0);
+                    main.num_registers = 8;
+                    main.constants.push(Value::nested_fn_marker(0));
+                    main.nested_functions.push(holder);
+                    set_code(&mut main, vec![ins(35, 0, 0, k as u32), ins(21, 1, 0, 0), ins(23, 0, 0, 0)]);
+                    f = main;
+                }
+                tag = format!("upvaldesc:{}:k{}:{}", if plain { "plain" } else { "closure" }, k, desc);
             }
             _ => {
                 // an opcode byte from the numbering gap on the grid (known class from_u8_gap)
@@ -619,6 +667,16 @@ mod imp {
         }
         let handle = std::thread::Builder::new().stack_size(256 << 20).spawn(move || {
             let mut rng = Rng::new(seed);
+            // every program unmutated at every optimisation level first
+            for (pi, src) in PROGRAMS.iter().enumerate() {
+                for opt in 0..4u32 {
+                    let mut vm = new_vm();
+                    match compile(&mut vm, src, opt) {
+                        Some(f) => run_case(&format!("b{}o{}", pi, opt), &mut vm, &f, gap, budget, nfirst, &format!("p{}o{}:baseline", pi, opt)),
+                        None => println!("E\tcompile-failed\t{}\t{}", pi, opt),
+                    }
+                }
+            }
             for n in 0..cases {
                 let mut vm = new_vm();
                 let pi = rng.below(PROGRAMS.len() as u64) as usize;
